@@ -204,6 +204,7 @@ type Frame struct {
 	closureMap map[string]*ssa.MakeClosure
 	allow   map[string]*allowedSet // modifies clause evaluated at entry (nil: no frame reasoning)
 	callResults map[string]ssa.Value
+	siteOrd map[ssa.Instruction]int
 }
 
 type deferredCall struct {
